@@ -12,6 +12,7 @@ import (
 	"fmt"
 	"io"
 	"log"
+	"net"
 	"os"
 	"path/filepath"
 	"strings"
@@ -22,10 +23,12 @@ import (
 
 	"cell2verif/hx"
 
+	"github.com/asynkron/protoactor-go/remote"
 	"github.com/dfklegend/cell2/baseapp"
 	"github.com/dfklegend/cell2/baseapp/interfaces"
 	"github.com/dfklegend/cell2/baseapp/module"
 	nodeapp "github.com/dfklegend/cell2/node/app"
+	actormodule "github.com/dfklegend/cell2/node/modules/actor"
 	clustermodule "github.com/dfklegend/cell2/node/modules/cluster"
 	welcomemodule "github.com/dfklegend/cell2/node/modules/welcome"
 	nodeservice "github.com/dfklegend/cell2/node/service"
@@ -56,6 +59,7 @@ type caseT struct {
 	wg    sync.WaitGroup // goroutines handed a Stop by a module (script token G)
 	fxT   int            // app: success reports of the stop phase seen so far
 	over  bool           // app: the stop phase reported success twice; the case is over
+	actor bool           // the real ActorSystemModule is one of the modules (its remote server is shut down with the case)
 }
 
 func (c *caseT) isApp() bool { return c.kind >= 1 }
@@ -105,7 +109,9 @@ func (svcCreator) Create(name string) {
 // nodeCfg writes a minimal node configuration: one node, clustering and node control off.  `svc` is
 // the node's service list, one letter per service: P = the service has an entry under `services:`,
 // M = it is named by the node but missing from the services map (tolerated by StartServices: log and skip).
-func nodeCfg(svc, mode, clus string, nodefault bool) string {
+var busyLis net.Listener // keeps one local port occupied for the whole run (addr=inuse)
+
+func nodeCfg(svc, mode, clus, addrKind string, nodefault bool) string {
 	if !nodeInit {
 		nodeInit = true
 		nodeservice.Factory.Register("c11svc", svcCreator{})
@@ -116,7 +122,7 @@ func nodeCfg(svc, mode, clus string, nodefault bool) string {
 		defaultSet = true
 		baseapp.SetDefaultLaunchFunc(launchAdder)
 	}
-	key := svc + "/" + mode + "/" + clus
+	key := svc + "/" + mode + "/" + clus + "/" + addrKind
 	if d, ok := nodeCfgDirs[key]; ok {
 		return d
 	}
@@ -144,6 +150,21 @@ func nodeCfg(svc, mode, clus string, nodefault bool) string {
 		// clustering on, and an own address without a port: the real ClusterModule's StartMember fails in
 		// Provider.init before any network traffic (no etcd needed)
 		addr, clusterCfg = "127.0.0.1", "---\nEnable: true\nNodeCtrl: false\nName: c11verif\nETCDServer: 127.0.0.1:1\n"
+	}
+	switch addrKind {
+	case "inuse": // the node's address is occupied by somebody else: the real actor module cannot bind it
+		if busyLis == nil {
+			l, err := net.Listen("tcp", "127.0.0.1:0")
+			if err != nil {
+				panic(err)
+			}
+			busyLis = l
+		}
+		addr = busyLis.Addr().String()
+	case "free": // port 0: the kernel picks a port nobody holds
+		addr = "127.0.0.1:0"
+	case "foreign": // an address that is not local to this host (TEST-NET-3)
+		addr = "203.0.113.7:39511"
 	}
 	nodes := "---\nnodes:\n  n1:\n    StartMode: " + startMode + "\n    Address: " + addr + "\n    Services: [" + strings.Join(names, ", ") + "]\nservices:\n" + strings.Join(entries, "")
 	cluster := clusterCfg
@@ -204,6 +225,14 @@ func (m *mod) run(ph int, next interfaces.FuncWithSucc) {
 	m.c.logf("%s%d", enterTok[ph], m.id)
 	m.next[ph] = next
 	if m.inner != nil {
+		// a real shipped module that panics (e.g. the actor module when the node's address cannot be bound): logged like a
+		// scripted panic, then handed on to ModList's wrapper
+		defer func() {
+			if e := recover(); e != nil {
+				m.c.logf("%s%d", panicTok[ph], m.id)
+				panic(e)
+			}
+		}()
 		report := func(succ bool) {
 			m.c.logf("%s%d%s", callTok[ph], m.id, tf(succ))
 			next(succ)
@@ -340,6 +369,15 @@ func dispose(c *caseT) {
 	if c == nil {
 		return
 	}
+	if c.actor {
+		c.actor = false
+		func() {
+			defer func() { recover() }() // never started (bind failure): no server to stop
+			if sys := actormodule.GetSystem(); sys != nil {
+				remote.GetRemote(sys).Shutdown(false)
+			}
+		}()
+	}
 	a := c.app
 	if c.node != nil {
 		a = c.node.App
@@ -440,6 +478,8 @@ func (c *caseT) invoke(ph int) {
 	fin := func(succ bool) {
 		c.logf("%s%s", finTok[ph], tf(succ))
 		switch c.cb[ph] {
+		case "panic": // the completion callback itself panics (user code: e.g. a service creator inside StartNode's closure)
+			panic("scripted completion callback panic")
 		case "stop":
 			c.logf("RX")
 			c.invoke(1)
@@ -560,6 +600,9 @@ func execIn(op string, pcur **caseT, bubble bool) string {
 					c.mods[pos].inner = clustermodule.NewClusterModule()
 				case "welcome":
 					c.mods[pos].inner = welcomemodule.NewWelcomeModule()
+				case "actor":
+					c.mods[pos].inner = actormodule.NewActorSystemModule()
+					c.actor = true
 				}
 			}
 		}
@@ -573,7 +616,8 @@ func execIn(op string, pcur **caseT, bubble bool) string {
 			if nodefault && defaultSet {
 				return "unsupported" // a default launch mode cannot be unset: only the first node case of a process can run without
 			}
-			dir := nodeCfg(svc, mode, clus, nodefault)
+			addrKind, _ := hx.KV(ws, "addr")
+			dir := nodeCfg(svc, mode, clus, addrKind, nodefault)
 			c.node = nodeapp.NewNode()
 			nodeapp.Node = c.node // the shipped modules find their node through this global
 			if v, _ := hx.KV(ws, "prep"); v != "0" {
@@ -812,8 +856,11 @@ func (g *gen) svcOpt(app, k int) string {
 // on with an own address that has no port (StartMember fails early, in Provider.init: failure), and demands
 // what the translated bodies promise: completion exactly once.  The script of that position is the expected outcome.
 func (g *gen) realShipped() {
-	type rc struct{ name, cluster, start string }
-	for _, r := range []rc{{"cluster", "off", "T"}, {"cluster", "badaddr", "F"}, {"welcome", "off", "T"}} {
+	// ... and the real ActorSystemModule with the node's address free (success), occupied by somebody else and not local
+	// to this host (remote.Start panics: ModList's wrapper reports the module as failed)
+	type rc struct{ name, cluster, start, addr string }
+	for _, r := range []rc{{"cluster", "off", "T", ""}, {"cluster", "badaddr", "F", ""}, {"welcome", "off", "T", ""},
+		{"actor", "off", "T", " addr=free"}, {"actor", "off", "!", " addr=inuse"}, {"actor", "off", "!", " addr=foreign"}} {
 		for pos := 0; pos < 3; pos++ {
 			scr := func(i int) string {
 				if i == pos {
@@ -821,7 +868,7 @@ func (g *gen) realShipped() {
 				}
 				return "T"
 			}
-			g.run(fmt.Sprintf("reset n=3 app=2 kind=shipped start=%s stop=T,T,T real=%d:%s cluster=%s name=real-%s", join(3, scr), pos, r.name, r.cluster, r.name))
+			g.run(fmt.Sprintf("reset n=3 app=2 kind=shipped start=%s stop=T,T,T real=%d:%s cluster=%s name=real-%s%s", join(3, scr), pos, r.name, r.cluster, r.name, r.addr))
 			g.run("begin ph=S")
 			g.run("begin ph=X")
 			g.h.Count("shipped.real-module-executed")
@@ -1195,6 +1242,63 @@ func (g *gen) reentrant(maxN int) {
 	g.h.Stats["reentrant.cases(n,app,callback,failpos,delays)"] = cases
 }
 
+// cbpanic: the completion callback itself panics (user code).  In a synchronous chain the panic unwinds into the
+// wrapper of the module whose report ended the phase (it has reported: only logged; the rest of that module's
+// Start/Stop is cut off) — or, when the phase was ended by the wrapper's own next(false) after a module panic, on
+// into the enclosing module's wrapper; with no module underneath (delayed completion, empty list, first module)
+// it reaches the caller of next / Start / Stop.  Whatever happens, the callback has been invoked exactly once.
+func (g *gen) cbpanic(maxN int) {
+	cases := 0
+	for n := 0; n <= maxN; n++ {
+		for fail := -1; fail < n; fail++ {
+			for mask := 0; mask < 1<<uint(n); mask++ {
+				for ph := 0; ph < 2; ph++ {
+					for v := 0; v < 3; v++ { // how the failing module fails: reports false / panics before reporting / reports and panics
+						if fail < 0 && v == 1 {
+							continue
+						}
+						outcome := func(i int) string {
+							if i == fail {
+								return "F"
+							}
+							return "T"
+						}
+						scr := func(i int) string {
+							if i == fail && v == 1 {
+								return "!"
+							}
+							if mask>>uint(i)&1 == 1 {
+								return "" // delayed
+							}
+							if v == 2 && (i == fail || fail < 0) {
+								return outcome(i) + "!"
+							}
+							return outcome(i)
+						}
+						app := (n + fail + 1 + mask + ph + v) % 3
+						cb := " cbS=panic"
+						if ph == 1 {
+							cb = " cbX=panic"
+						}
+						if ph == 0 {
+							g.run(fmt.Sprintf("reset n=%d app=%d kind=gen start=%s stop=%s%s%s", n, app, join(n, scr), join(n, allT), cb, g.svcOpt(app, cases)))
+							g.drive(0, outcome)
+							g.drive(1, allT)
+						} else {
+							g.run(fmt.Sprintf("reset n=%d app=%d kind=gen start=%s stop=%s%s%s", n, app, join(n, allT), join(n, scr), cb, g.svcOpt(app, cases)))
+							g.drive(0, allT)
+							g.drive(1, outcome)
+							g.run("begin ph=X")
+						}
+						cases++
+					}
+				}
+			}
+		}
+	}
+	g.h.Stats["cbpanic.cases(n,failpos,syncmask,phase,kind)"] = cases
+}
+
 func (g *gen) randomScript(neg bool) string {
 	r := g.h.R.Intn(100)
 	switch {
@@ -1247,6 +1351,9 @@ func (g *gen) randomCase() {
 		}
 		cb = fmt.Sprintf(" cbS=%s cbX=%s", []string{"stop", "gostop"}[h.R.Intn(2)], cbX)
 		h.Count("case.callbacks")
+	} else if h.R.Intn(8) == 0 {
+		cb = []string{" cbS=panic", " cbX=panic", " cbS=panic cbX=panic"}[h.R.Intn(3)]
+		h.Count("case.callback-panics")
 	} else if n >= 2 && h.R.Intn(5) == 0 {
 		// a later module registers a further module before completing; module 0 completes later, so the
 		// registration never runs inside Filter
@@ -1426,6 +1533,11 @@ func TestRun(t *testing.T) {
 	}
 	g.exhaustive(hx.EnvInt("VERIF_MAXN", maxN))
 	g.panics(4)
+	if h.Thorough() {
+		g.cbpanic(4)
+	} else {
+		g.cbpanic(3)
+	}
 	g.slow(3)
 	g.nodecases()
 	g.reentrant(4)
